@@ -328,6 +328,12 @@ func signalInheritedIgnored(sig syscall.Signal, name, trap string) cellResult {
 
 func signalBeforeWriters(sig syscall.Signal, name string, pathChange ...string) cellResult {
 	res := cellResult{Cell: name + "/no-writer-has-opened-the-pipes"}
+	noOutput := len(pathChange) > 0 && pathChange[0] == "events-output-missing"
+	if noOutput {
+		// the events output does not exist (yet): the daemon waits for it to appear - and stops waiting when told to
+		res.Cell = name + "/waiting-for-the-events-output-to-appear"
+		pathChange = nil
+	}
 	if len(pathChange) > 0 {
 		res.Cell += "+audit-pipe-path-" + pathChange[0]
 	}
@@ -338,7 +344,9 @@ func signalBeforeWriters(sig syscall.Signal, name string, pathChange ...string) 
 	d.outPath = filepath.Join(d.dir, "events.log")
 	mkfifo(d.sshdPath)
 	mkfifo(d.auditPath)
-	_ = os.WriteFile(d.outPath, nil, 0o644)
+	if !noOutput {
+		_ = os.WriteFile(d.outPath, nil, 0o644)
+	}
 	if err := d.start(false); err != nil {
 		res.Verdict, res.Detail = "inconclusive", err.Error()
 		return res
@@ -583,8 +591,10 @@ func runC08(run *mc.Run) int {
 	judge(signalBeforeWriters(syscall.SIGTERM, "sigterm"))
 	judge(signalBeforeWriters(syscall.SIGTERM, "sigterm", "removed"))
 	judge(signalBeforeWriters(syscall.SIGTERM, "sigterm", "recreated"))
+	judge(signalBeforeWriters(syscall.SIGTERM, "sigterm", "events-output-missing"))
 	if run.Thorough() {
 		judge(signalBeforeWriters(syscall.SIGINT, "sigint"))
+		judge(signalBeforeWriters(syscall.SIGINT, "sigint", "events-output-missing"))
 	}
 	// with the HTTP endpoints enabled and a client stalled mid-response (and, in these cells, debug logging)
 	judge(httpCell("audit-pipe-eof"))
@@ -607,7 +617,7 @@ func runC08(run *mc.Run) int {
 		}
 	}
 	cov := mc.Coverage{Level: "fault_enumeration", Evaluations: len(results), Distinct: len(results) - inconclusive, Exhaustive: inconclusive == 0, Samples: samples,
-		Rule:  "fault enumeration on the built binary over real FIFOs: 10 run-time causes (sshd pipe EOF, sshd writer dying mid-line with a replacement writer connecting 300 ms later (idle and stalled-output only), audit pipe EOF, unparsable audit line, a LOGIN record whose pid is not a number, a login the correlator rejects while the next login is already buffered, output /dev/full, output FIFO whose reader left, SIGTERM, SIGINT) x load {idle, stalled-output: the events FIFO is never drained so the line buffer and the audit pipe stay full (write end accepts no byte for >=300 ms), saturated: a writer keeps the audit FIFO full - single-record events written at full speed, >=8 MB written and the pipe found full >=50 times - flow equilibrium with the 10000-slot line buffer full}, 2 cells with -metrics -healthz -audit-metrics -log-level debug (every optional worker running) and an HTTP client stalled mid-response (pipelined /metrics requests, never read) x {audit pipe EOF, SIGTERM}, SIGTERM before any writer has opened the pipes (also with the audit pipe's path removed / re-created meanwhile), SIGINT / SIGTERM to a daemon that was started with that signal ignored (inherited disposition), 6 start-up causes (sshd/audit path is a regular file, a directory, missing); oracle: the process exits within 10 s of the cause, non-zero for failures. A cell whose set-up could not be reached is inconclusive (exit 0, exhaustive=false). distinct_nontrivial = conclusive cells",
+		Rule:  "fault enumeration on the built binary over real FIFOs: 10 run-time causes (sshd pipe EOF, sshd writer dying mid-line with a replacement writer connecting 300 ms later (idle and stalled-output only), audit pipe EOF, unparsable audit line, a LOGIN record whose pid is not a number, a login the correlator rejects while the next login is already buffered, output /dev/full, output FIFO whose reader left, SIGTERM, SIGINT) x load {idle, stalled-output: the events FIFO is never drained so the line buffer and the audit pipe stay full (write end accepts no byte for >=300 ms), saturated: a writer keeps the audit FIFO full - single-record events written at full speed, >=8 MB written and the pipe found full >=50 times - flow equilibrium with the 10000-slot line buffer full}, 2 cells with -metrics -healthz -audit-metrics -log-level debug (every optional worker running) and an HTTP client stalled mid-response (pipelined /metrics requests, never read) x {audit pipe EOF, SIGTERM}, SIGTERM before any writer has opened the pipes (also with the audit pipe's path removed / re-created meanwhile) and while the daemon still waits for its events output to appear, SIGINT / SIGTERM to a daemon that was started with that signal ignored (inherited disposition), 6 start-up causes (sshd/audit path is a regular file, a directory, missing); oracle: the process exits within 10 s of the cause, non-zero for failures. A cell whose set-up could not be reached is inconclusive (exit 0, exhaustive=false). distinct_nontrivial = conclusive cells",
 		Extra: map[string]any{"cells": results, "saturated_cells_reached": sat, "inconclusive": inconclusive, "bound_s": exitBound.Seconds()}}
 	cov.Assumptions = []string{"the OS scheduler is not controlled; 10 s is the property's bounded time against observed millisecond latencies",
 		"the decisive blocking state (line buffer full, consumer gone) is also decided deterministically by C13's bubble cells"}
